@@ -295,7 +295,8 @@ Proof.
       * rewrite nth_overflow in C by lia. discriminate.
 Qed.
 
-(* before fix D08 the function returned 0 whatever the slot: the second calibration is found at
+(* model variant [step_asis] (a hand-written record of the code as it was before fix D08; not tied
+   to the current code): add returned 0 whatever the slot - the second calibration is found at
    index 1 but add answered 0 *)
 Definition d8_script : list op :=
   [ONewAlloc 0 0 1 1; OSetFreq 0 1; OAddStd 0 [0%Z] [(0, 0)%Z]; OAddStd 0 [1%Z] [(64, 0)%Z];
@@ -565,19 +566,6 @@ Proof.
   - destruct (fl =? 1); try discriminate. destruct (fl =? 2); discriminate.
 Qed.
 
-(* before fix D11 a failed allocation left first_free beyond an empty slot *)
-Lemma alloc_fail_asis_breaks_first_free_l :
-  exists t t', inv_table t /\ alloc_param_gen false t (KScalar (1, 1)%Z) 1 = AFail t' /\ ~ inv_table t'.
-Proof.
-  exists (mkPT [Some (mkParam (KScalar (0,0)%Z) false 1); Some (mkParam (KScalar (64,0)%Z) false 1);
-                Some (mkParam (KScalar (-64,0)%Z) false 1); None] 3 3).
-  eexists. split; [|split].
-  - unfold inv_table. simpl. repeat split; try lia; auto.
-    intros i Hi. destruct i as [|[|[|i]]]; unfold slot; simpl; try discriminate. lia.
-  - vm_compute. reflexivity.
-  - intros (_ & _ & P & _). apply (P 3); simpl; auto.
-Qed.
-
 (* release keeps the bookkeeping invariant (whatever the reference counts are) *)
 Lemma release_inv_table : forall fuel t h t' b,
   inv_table t -> release fuel t h = (t', b) -> inv_table t' /\ length (pt_slots t') = length (pt_slots t).
@@ -587,6 +575,7 @@ Proof.
   - destruct (slot t h) as [p|] eqn:S; [|inv H; auto].
     destruct (p_hold p) as [|[|hc]] eqn:Hp; [inv H; auto| |].
     + destruct (p_deleted p); simpl in H; [|inv H; auto].
+      destruct (pt_count t =? 0); [inv H; auto|].
       pose proof (inv_table_remove _ _ _ I S) as I'.
       destruct (other_of (p_kind p)).
       * destruct (IH _ _ _ _ I' H) as (A & B). split; auto. rewrite B. simpl. apply length_upd.
@@ -660,10 +649,10 @@ Qed.
 (* _vnacal_release_parameter never trips an assertion when the counts are right, and the counts
    stay right (the released reference is [dl h]) *)
 Lemma release_ok : forall fuel t h c,
-  RI t (fun x => c x + dl h x) -> occupied (pt_slots t) < fuel ->
+  inv_table t -> RI t (fun x => c x + dl h x) -> occupied (pt_slots t) < fuel ->
   exists t', release fuel t h = (t', false) /\ RI t' c.
 Proof.
-  induction fuel as [|f IH]; intros t h c R O; try lia.
+  induction fuel as [|f IH]; intros t h c IT R O; try lia.
   simpl. pose proof (R h) as Rh. cbv beta in Rh. rewrite dl_refl in Rh.
   destruct (slot t h) as [p|] eqn:S; [|lia].
   destruct Rh as (Hh & Hpos).
@@ -671,6 +660,10 @@ Proof.
   - (* last reference *)
     assert (D : p_deleted p = true) by (destruct (p_deleted p); simpl in Hh; auto; lia).
     rewrite D in *. simpl in Hh. simpl negb.  cbv iota.
+    (* assert(vprmc_count >= 1): the count is the number of occupied slots and slot h is occupied *)
+    assert (Cpos : pt_count t <> 0).
+    { destruct IT as (Cn & _). pose proof (occupied_remove _ _ _ S). lia. }
+    apply Nat.eqb_neq in Cpos. rewrite Cpos.
     set (t1 := mkPT (upd (pt_slots t) h None) (pred (pt_count t))
                     (if h <? pt_first_free t then h else pt_first_free t)).
     assert (R1 : RI t1 (fun x => c x + odl (other_of (p_kind p)) x)).
@@ -683,6 +676,7 @@ Proof.
         destruct (slot t j) as [q|]; lia. }
     destruct (other_of (p_kind p)) as [o|] eqn:Ot.
     + apply IH.
+      * exact (inv_table_remove _ _ _ IT S).
       * eapply RI_ext; [|exact R1]. intros; reflexivity.
       * unfold t1. simpl. pose proof (occupied_remove _ _ _ S). lia.
     + exists t1. split; auto. eapply RI_ext; [|exact R1]. intros; simpl; lia.
@@ -704,7 +698,7 @@ Proof.
   intros t h c I R. unfold release_top.
   assert (O : occupied (pt_slots t) < S (length (pt_slots t))).
   { pose proof (occupied_le (pt_slots t)). lia. }
-  destruct (release_ok (S (length (pt_slots t))) t h c R O) as (t' & E & R').
+  destruct (release_ok (S (length (pt_slots t))) t h c I R O) as (t' & E & R').
   exists t'. destruct (release_inv_table _ _ _ _ _ I E). split; [auto|split; auto].
 Qed.
 
@@ -727,6 +721,7 @@ Proof.
     destruct (slot t h) as [p|] eqn:S; [|inv H; auto].
     destruct (p_hold p) as [|[|hc]] eqn:Hp; [inv H; auto| |].
     + destruct (p_deleted p) eqn:D; simpl in H; [|inv H; auto].
+      destruct (pt_count t =? 0); [inv H; auto|].
       set (t1 := mkPT (upd (pt_slots t) h None) (pred (pt_count t))
                       (if h <? pt_first_free t then h else pt_first_free t)) in *.
       assert (K1 : forall j q, slot t j = Some q -> p_deleted q = false -> slot t1 j = Some q).
@@ -829,7 +824,8 @@ Qed.
    the solved values of unknown parameters may differ) *)
 Definition shk (t t' : ptable) : Prop :=
   forall j, match slot t j, slot t' j with
-            | Some p, Some q => p_deleted p = p_deleted q /\ (other_of (p_kind p) = None -> p_kind q = p_kind p)
+            | Some p, Some q => p_deleted p = p_deleted q /\ (other_of (p_kind p) = None -> p_kind q = p_kind p) /\
+                                other_of (p_kind q) = other_of (p_kind p)
             | None, None => True
             | _, _ => False
             end.
@@ -840,15 +836,16 @@ Proof. intros t j. destruct (slot t j); auto. Qed.
 Lemma shk_trans : forall a b c, shk a b -> shk b c -> shk a c.
 Proof.
   intros a b c H1 H2 j. specialize (H1 j). specialize (H2 j).
-  destruct (slot a j), (slot b j), (slot c j); try tauto. destruct H1 as (D1 & K1), H2 as (D2 & K2).
-  split; [congruence|]. intros O. rewrite K2; [auto|]. rewrite K1; auto.
+  destruct (slot a j), (slot b j), (slot c j); try tauto. destruct H1 as (D1 & K1 & O1), H2 as (D2 & K2 & O2).
+  split; [congruence|split; [|congruence]]. intros O. rewrite K2; [auto|]. rewrite K1; auto.
 Qed.
 
 Lemma shk_set : forall t h p q,
   slot t h = Some p -> p_deleted q = p_deleted p -> (other_of (p_kind p) = None -> p_kind q = p_kind p) ->
+  other_of (p_kind q) = other_of (p_kind p) ->
   shk t (set_slot t h (Some q)).
 Proof.
-  intros t h p q S D K j. rewrite slot_set_slot. destruct (Nat.eqb_spec j h) as [->|]; simpl.
+  intros t h p q S D K OO j. rewrite slot_set_slot. destruct (Nat.eqb_spec j h) as [->|]; simpl.
   - destruct (Nat.ltb_spec h (length (pt_slots t))); [|apply slot_some_lt in S; lia].
     rewrite S. simpl. auto.
   - destruct (slot t j); auto.
@@ -867,7 +864,7 @@ Proof.
   rewrite A in H0. rewrite B in H1. rewrite C in H2. unfold inv_predefined.
   destruct (slot t' 0) as [[a0 b0 c0]|]; try tauto. destruct (slot t' 1) as [[a1 b1 c1]|]; try tauto.
   destruct (slot t' 2) as [[a2 b2 c2]|]; try tauto. cbn [p_kind p_deleted] in *.
-  destruct H0 as (X0 & Y0), H1 as (X1 & Y1), H2 as (X2 & Y2).
+  destruct H0 as (X0 & Y0 & _), H1 as (X1 & Y1 & _), H2 as (X2 & Y2 & _).
   rewrite (Y0 eq_refl), (Y1 eq_refl), (Y2 eq_refl). subst.
   split; [|split]; eexists; reflexivity.
 Qed.
@@ -957,6 +954,89 @@ Proof.
     destruct (A j p S D) as (k & Sk). destruct (K2 j _ Sk eq_refl) as (k2 & S2). simpl in S2. eauto.
 Qed.
 
+(* ================================================================== acyclicity of the [other] links *)
+(* every link of t' is a link of t: the same rank works *)
+Lemma acyc_sub : forall t t',
+  (forall h q o, slot t' h = Some q -> other_of (p_kind q) = Some o ->
+     exists p, slot t h = Some p /\ other_of (p_kind p) = Some o) ->
+  inv_acyclic t -> inv_acyclic t'.
+Proof.
+  intros t t' H (rank & R). exists rank. intros h q o S O.
+  destruct (H h q o S O) as (p & Sp & Op). eauto.
+Qed.
+
+Lemma acyc_shk : forall t t', shk t t' -> inv_acyclic t -> inv_acyclic t'.
+Proof.
+  intros t t' K. apply acyc_sub. intros h q o S O. specialize (K h). rewrite S in K.
+  destruct (slot t h) as [p|]; [|tauto]. destruct K as (_ & _ & E). exists p. split; auto. congruence.
+Qed.
+
+Lemma acyc_same : forall t t', (forall j, slot t' j = slot t j) -> inv_acyclic t -> inv_acyclic t'.
+Proof.
+  intros t t' Same. apply acyc_sub. intros h q o S O. rewrite Same in S. eauto.
+Qed.
+
+Lemma acyc_release : forall fuel t h t' b, release fuel t h = (t', b) -> inv_acyclic t -> inv_acyclic t'.
+Proof.
+  intros fuel t h t' b E. destruct (release_keeps _ _ _ _ _ E) as (_ & B).
+  apply acyc_sub. intros j q o S O. destruct (B j q S) as (p & Sp & Kp & _). exists p. split; auto. congruence.
+Qed.
+
+Lemma acyc_release_all : forall hs t t' b, release_all t hs = (t', b) -> inv_acyclic t -> inv_acyclic t'.
+Proof.
+  induction hs as [|h r IH]; simpl; intros t t' b E A.
+  - inv E. auto.
+  - destruct (release_top t h) as [t1 f1] eqn:E1. destruct (release_all t1 r) as [t2 f2] eqn:E2. inv E.
+    eapply IH; eauto. eapply acyc_release; eauto.
+Qed.
+
+Lemma acyc_set_same_kind : forall t h p q,
+  slot t h = Some p -> other_of (p_kind q) = other_of (p_kind p) ->
+  inv_acyclic t -> inv_acyclic (set_slot t h (Some q)).
+Proof.
+  intros t h p q S E. apply acyc_sub. intros j r o Sj O. rewrite slot_set_slot in Sj.
+  destruct (Nat.eqb j h && Nat.ltb h (length (pt_slots t)))%bool eqn:B.
+  - inv Sj. apply andb_prop in B. destruct B as (B & _). apply Nat.eqb_eq in B. subst. exists p. split; auto. congruence.
+  - eauto.
+Qed.
+
+Lemma acyc_delete_release : forall t n p t' b,
+  slot t n = Some p -> delete_release t n p = (t', b) -> inv_acyclic t -> inv_acyclic t'.
+Proof.
+  intros t n p t' b S E A. unfold delete_release, release_top in E.
+  eapply acyc_release; [exact E|]. eapply acyc_set_same_kind; eauto.
+Qed.
+
+(* nobody links to a slot whose [other] count is zero *)
+Lemma oc_zero_no_link : forall t h j p,
+  oc t h = 0 -> slot t j = Some p -> other_of (p_kind p) <> Some h.
+Proof.
+  intros t h j p Z S O. unfold oc in Z. flat_oo.
+  assert (In h (flat_map oo (pt_slots t))).
+  { apply in_flat_map. exists (Some p). split.
+    - unfold slot in S. rewrite <- S. apply nth_In. eapply slot_some_lt; eauto.
+    - simpl. rewrite O. simpl. auto. }
+  apply (count_occ_In Nat.eq_dec) in H. lia.
+Qed.
+
+(* a new parameter in an empty slot, linked to an occupied one: rank of the new slot = rank of its
+   target + 1; nobody links to the new slot, so the other ranks stand *)
+Lemma acyc_alloc : forall t c k fl t' h,
+  inv_table t -> RI t c -> alloc_param t k fl = AOk t' h ->
+  (forall o, other_of k = Some o -> slot t o <> None) ->
+  inv_acyclic t -> inv_acyclic t'.
+Proof.
+  intros t c k fl t' h I R A Ho (rank & Rk).
+  destruct (alloc_ok_spec _ _ _ _ _ I A) as (N & S' & Same & _).
+  assert (Z : oc t h = 0). { pose proof (R h) as Rh. rewrite N in Rh. lia. }
+  exists (fun x => if Nat.eqb x h then match other_of k with Some o => S (rank o) | None => 0 end else rank x).
+  intros j q o S O. destruct (Nat.eqb_spec j h) as [->|Nj].
+  - rewrite S' in S. inv S. simpl in O. rewrite O.
+    destruct (Nat.eqb_spec o h) as [->|]; [exfalso; apply (Ho h O); auto|]. lia.
+  - rewrite (Same j Nj) in S.
+    destruct (Nat.eqb_spec o h) as [->|]; [exfalso; eapply oc_zero_no_link; eauto|]. eauto.
+Qed.
+
 (* ================================================================== the invariant is preserved *)
 Definition vc (news : list (option vnew)) (h : nat) : nat := cnt (vn_owners news) h.
 
@@ -988,13 +1068,14 @@ Record Good (s : state) : Prop := mkGood {
   g_table : inv_table (st_pt s);
   g_pre : inv_predefined (st_pt s);
   g_refs : RI (st_pt s) (vc (st_news s));
-  g_news : length (st_news s) = max_vn }.
+  g_news : length (st_news s) = max_vn;
+  g_acyc : inv_acyclic (st_pt s) }.
 
 Lemma Inv_Good : forall s, st_freed s = false -> (Inv s <-> Good s).
 Proof.
   intros s Fr. unfold Inv, inv_news. split.
-  - intros H. destruct (H Fr) as (A & B & C & D). constructor; auto. apply inv_refs_RI. auto.
-  - intros [A B C D] _. ssplit; auto. apply inv_refs_RI. auto.
+  - intros H. destruct (H Fr) as (A & B & C & D & E). constructor; auto. apply inv_refs_RI. auto.
+  - intros [A B C D E] _. ssplit; auto. apply inv_refs_RI. auto.
 Qed.
 
 Lemma RI_same : forall t t' c,
@@ -1027,20 +1108,25 @@ Lemma finish_make_good : forall s k fl after,
   Good (fst r) /\ st_freed (fst r) = false /\ o_ret (snd r) <> RFault /\
   st_cals (fst r) = st_cals s /\ st_news (fst r) = st_news s.
 Proof.
-  intros s k fl after Fr [I P R N] Hk. simpl.
+  intros s k fl after Fr [I P R N AC] Hk. simpl.
   destruct (alloc_param (st_pt s) k fl) as [t' h| t' |] eqn:A.
   - simpl. destruct (alloc_ok_spec _ _ _ _ _ I A) as (Nn & S' & Same & _ & _ & I' & _).
     pose proof (alloc_predefined _ _ _ _ _ I P A) as P'.
+    assert (AC' : inv_acyclic t').
+    { apply (acyc_alloc (st_pt s) _ k fl t' h I R A); auto. intros o0 O0.
+      destruct Hk as [(O & _) | (o & q & O & So & _)]; [congruence|]. rewrite O in O0. inv O0. congruence. }
     destruct Hk as [(O & ->) | (o & q & O & So & ->)].
     + ssplit; auto; try discriminate. constructor; simpl; auto. exact (RI_alloc_plain _ _ _ _ _ _ I R A O).
     + ssplit; auto; try discriminate. constructor; simpl; auto.
       * apply inv_table_hold. auto.
       * eapply shk_predefined; [apply shk_hold|auto].
       * exact (RI_alloc_other _ _ _ _ _ _ _ _ I R A O So).
+      * eapply acyc_shk; [apply shk_hold|auto].
   - simpl. destruct (alloc_fail_spec _ _ _ _ I A) as (Same & I' & O').
     ssplit; auto; try discriminate. constructor; simpl; auto.
     + apply (predefined_same (st_pt s)); auto.
     + eapply RI_same; eauto.
+    + eapply acyc_same; eauto.
   - exfalso. eapply alloc_no_fault; eauto.
 Qed.
 
@@ -1105,7 +1191,7 @@ Lemma step_good : forall s o,
   st_freed s = false -> Good s -> o <> OFree ->
   Good (fst (step s o)) /\ st_freed (fst (step s o)) = false /\ o_ret (snd (step s o)) <> RFault.
 Proof.
-  intros s o Fr G NF. pose proof G as [I P R N].
+  intros s o Fr G NF. pose proof G as [I P R N AC].
   unfold step, step_gen. rewrite Fr. simpl negb.
   change (alloc_param_gen true) with alloc_param.
   destruct o; try congruence.
@@ -1117,7 +1203,8 @@ Proof.
   - (* make_vector *)
     destruct fs as [|f0 fs']; [simpl; ssplit; auto; discriminate|].
     destruct ((f0 <? 0)%Z || negb (ascending (f0 :: fs')))%bool; [simpl; ssplit; auto; discriminate|].
-    destruct (finish_make_good s (KVector (f0 :: fs') gs) fail (fun t => t) Fr G) as (A & B & C & _); auto.
+    destruct (length gs <? length (f0 :: fs')); [simpl; ssplit; auto; discriminate|].
+    destruct (finish_make_good s (KVector (f0 :: fs') (firstn (length (f0 :: fs')) gs)) fail (fun t => t) Fr G) as (A & B & C & _); auto.
   - (* make_unknown *)
     destruct (get_param (st_pt s) h) as [[n p]|] eqn:Gp; [|simpl; ssplit; auto; discriminate].
     destruct (get_param_some _ _ _ _ Gp) as (Sn & _).
@@ -1140,6 +1227,7 @@ Proof.
     { apply andb_false_iff in H3. destruct H3 as [H3|H3]; [apply Z.leb_gt in H3|apply Z.ltb_ge in H3]; lia. }
     destruct (delete_release_good _ _ _ _ I P R Sn Dn H) as (t' & E & I' & P' & R').
     rewrite E. simpl. ssplit; auto; try discriminate. constructor; auto.
+    simpl. eapply acyc_delete_release; eauto.
   - (* get_parameter_value *)
     simpl. ssplit; auto. unfold get_value.
     destruct (get_param (st_pt s) h) as [[n p]|]; simpl; try discriminate.
@@ -1161,6 +1249,7 @@ Proof.
       rewrite (nth_error_nth _ _ None E) in X. cbn [vp vn_params] in X.
       rewrite cnt_single in X. change (cnt [] x) with 0 in X. lia.
     + rewrite length_upd. auto.
+    + eapply acyc_shk; [apply shk_hold|auto].
   - (* set_frequency_vector *)
     destruct (get_new s id) as [v|] eqn:Gn; [|simpl; ssplit; auto; discriminate].
     destruct (f0 <? 0)%Z; [simpl; ssplit; auto; discriminate|].
@@ -1187,7 +1276,8 @@ Proof.
       pose proof (vc_upd (st_news s) id (Some v2) x Lt) as Y.
       simpl in X, Y. rewrite E2 in Y. lia. }
     destruct ok; simpl; ssplit; auto; try discriminate; constructor; simpl; auto;
-      try (eapply shk_predefined; eauto); try (rewrite length_upd; auto).
+      try (eapply shk_predefined; eauto); try (rewrite length_upd; auto);
+      try (eapply acyc_shk; [exact K1|exact AC]).
   - (* solve *)
     destruct (get_new s id) as [v|] eqn:Gn; [|simpl; ssplit; auto; discriminate].
     destruct (negb (vn_fvalid v)); [simpl; ssplit; auto; discriminate|].
@@ -1198,6 +1288,7 @@ Proof.
     + eapply shk_predefined; eauto.
     + eapply RI_ext; [|exact R1]. intros x. symmetry. eapply vc_same_params; eauto.
     + rewrite length_upd. auto.
+    + eapply acyc_shk; eauto.
   - (* add_calibration *)
     destruct (get_new s id) as [v|] eqn:Gn; [|simpl; ssplit; auto; discriminate].
     destruct (vn_cal v); [|simpl; ssplit; auto; discriminate].
@@ -1232,6 +1323,7 @@ Proof.
     rewrite E. simpl. ssplit; auto; try discriminate. constructor; simpl; auto.
     + eapply release_all_predefined; eauto.
     + rewrite length_upd. auto.
+    + eapply acyc_release_all; eauto.
 Qed.
 
 (* ================================================================== vnacal_free *)
@@ -1272,19 +1364,118 @@ Proof.
     rewrite E1, E2. exists t2. auto.
 Qed.
 
-(* vnacal_free (with fix D42) never trips an assertion and ends the life of the object *)
-Lemma free_ok : forall s, st_freed s = false -> Good s ->
-  exists s', step s OFree = (s', mkOut (RInt 0) ENone 0) /\ st_freed s' = true.
+(* ------------------------------------------------------------------ nothing is left: assert(vprmc_count == 0) *)
+Lemma acyc_free_news : forall l t t' b, free_news t l = (t', b) -> inv_acyclic t -> inv_acyclic t'.
 Proof.
-  intros s Fr [I P R N]. unfold step, step_gen, free_all. rewrite Fr.
+  induction l as [|[v|] r IH]; simpl; intros t t' b E A.
+  - inv E. auto.
+  - destruct (release_all t (vn_params v)) as [t1 f1] eqn:E1. destruct (free_news t1 r) as [t2 f2] eqn:E2.
+    inv E. eapply IH; eauto. eapply acyc_release_all; eauto.
+  - eapply IH; eauto.
+Qed.
+
+Lemma acyc_teardown : forall idx t t' b, teardown t idx = (t', b) -> inv_acyclic t -> inv_acyclic t'.
+Proof.
+  induction idx as [|i r IH]; simpl; intros t t' b E A.
+  - inv E. auto.
+  - destruct (slot t i) as [p|] eqn:S; [|eapply IH; eauto].
+    destruct (p_deleted p); [eapply IH; eauto|].
+    destruct (delete_release t i p) as [t1 f1] eqn:E1. destruct (teardown t1 r) as [t2 f2] eqn:E2.
+    inv E. eapply IH; eauto. eapply acyc_delete_release; eauto.
+Qed.
+
+(* after the teardown loop a parameter that is still live was live before and is not one of the
+   indices the loop went over *)
+Lemma teardown_all_deleted : forall idx t t' b, teardown t idx = (t', b) ->
+  forall j p', slot t' j = Some p' -> p_deleted p' = false ->
+    ~ In j idx /\ exists p, slot t j = Some p /\ p_deleted p = false.
+Proof.
+  induction idx as [|i r IH]; simpl; intros t t' b H j p' Sj Dj.
+  - inv H. split; auto. eauto.
+  - destruct (slot t i) as [p|] eqn:S.
+    + destruct (p_deleted p) eqn:D.
+      * destruct (IH _ _ _ H j p' Sj Dj) as (NI & q & Sq & Dq). split; eauto.
+        intros [<-|X]; auto. rewrite S in Sq. inv Sq. congruence.
+      * destruct (delete_release t i p) as [t1 f1] eqn:E1. destruct (teardown t1 r) as [t2 f2] eqn:E2. inv H.
+        destruct (IH _ _ _ E2 j p' Sj Dj) as (NI & q & Sq & Dq).
+        unfold delete_release, release_top in E1. destruct (release_keeps _ _ _ _ _ E1) as (_ & B).
+        destruct (B j q Sq) as (q0 & S0 & _ & D0). rewrite slot_set_slot in S0.
+        destruct (Nat.eqb_spec j i) as [->|Nj]; simpl in S0.
+        -- destruct (Nat.ltb_spec i (length (pt_slots t))); [|apply slot_some_lt in S; lia].
+           inv S0. simpl in D0. congruence.
+        -- split; [intros [X|X]; auto; congruence|]. exists q0. split; auto. congruence.
+    + destruct (IH _ _ _ H j p' Sj Dj) as (NI & q & Sq & Dq). split; eauto.
+      intros [<-|X]; auto. congruence.
+Qed.
+
+Lemma oc_pos_link : forall t h, 0 < oc t h ->
+  exists j p, slot t j = Some p /\ other_of (p_kind p) = Some h.
+Proof.
+  intros t h H. unfold oc in H. flat_oo. apply (count_occ_In Nat.eq_dec) in H.
+  apply in_flat_map in H. destruct H as ([p|] & Hin & Ho); [|destruct Ho].
+  destruct (In_nth _ _ None Hin) as (j & Lj & Nj). exists j, p. split; auto.
+  simpl in Ho. destruct (other_of (p_kind p)) as [o|]; [|destruct Ho]. destruct Ho as [<-|[]]. auto.
+Qed.
+
+Lemma le_list_max : forall l x, In x l -> x <= list_max l.
+Proof.
+  intros l x H. assert (F : Forall (fun k => k <= list_max l) l) by (apply list_max_le; lia).
+  rewrite Forall_forall in F. auto.
+Qed.
+
+(* acyclic links: if every occupied slot had a referrer the ranks would grow without bound *)
+Lemma no_occupied_when_all_referred : forall t, inv_acyclic t ->
+  (forall h p, slot t h = Some p -> exists j q, slot t j = Some q /\ other_of (p_kind q) = Some h) ->
+  forall h, slot t h = None.
+Proof.
+  intros t (rank & Rk) Ref.
+  assert (Up : forall k h p, slot t h = Some p -> exists h' p', slot t h' = Some p' /\ rank h + k <= rank h').
+  { induction k as [|k IH]; intros h p S.
+    - exists h, p. split; auto. lia.
+    - destruct (IH h p S) as (h1 & p1 & S1 & L1). destruct (Ref h1 p1 S1) as (j & q & Sq & Oq).
+      pose proof (Rk j q h1 Sq Oq). exists j, q. split; auto. lia. }
+  intros h. destruct (slot t h) as [p|] eqn:Sh; auto. exfalso.
+  set (M := list_max (map rank (seq 0 (length (pt_slots t))))).
+  destruct (Up (S M) h p Sh) as (h' & p' & S' & L').
+  assert (rank h' <= M).
+  { apply le_list_max. apply in_map. apply in_seq. pose proof (slot_some_lt _ _ _ S'). lia. }
+  lia.
+Qed.
+
+Lemma occupied_none : forall l, (forall j, nth j l None = None) -> occupied l = 0.
+Proof.
+  induction l as [|a l IH]; intros H; [reflexivity|].
+  rewrite occupied_cons. pose proof (H 0) as H0. simpl in H0. subst a. simpl.
+  apply IH. intros j. exact (H (S j)).
+Qed.
+
+(* vnacal_free (with fix D42) never trips an assertion - assert(vprmc_count == 0) at the end of the
+   teardown included: every parameter has been freed - and ends the life of the object *)
+Lemma free_ok : forall s, st_freed s = false -> Good s ->
+  exists s', step s OFree = (s', mkOut (RInt 0) ENone 0) /\ st_freed s' = true /\
+             pt_count (st_pt s') = 0 /\ (forall h, slot (st_pt s') h = None) /\ st_cals s' = [].
+Proof.
+  intros s Fr [I P R N AC]. unfold step, step_gen, free_all. rewrite Fr.
   assert (R0 : RI (st_pt s) (fun x => cnt (vn_owners (st_news s)) x + 0)).
   { eapply RI_ext; [|exact R]. intros; unfold vc; lia. }
   destruct (free_news_ok _ _ _ I R0) as (t1 & E1 & I1 & R1). rewrite E1.
-  destruct (teardown_ok (rev (seq 0 (length (pt_slots t1)))) _ _ I1 R1) as (t2 & E2 & _).
-  rewrite E2. simpl. eauto.
+  pose proof (acyc_free_news _ _ _ _ E1 AC) as A1.
+  destruct (teardown_ok (rev (seq 0 (length (pt_slots t1)))) _ _ I1 R1) as (t2 & E2 & I2 & R2).
+  rewrite E2. pose proof (acyc_teardown _ _ _ _ E2 A1) as A2.
+  assert (NoOcc : forall h, slot t2 h = None).
+  { apply (no_occupied_when_all_referred t2 A2). intros h p Sh.
+    assert (D : p_deleted p = true).
+    { destruct (p_deleted p) eqn:D; auto. exfalso.
+      destruct (teardown_all_deleted _ _ _ _ E2 h p Sh D) as (NI & q & Sq & _). apply NI.
+      rewrite <- in_rev. apply in_seq. pose proof (slot_some_lt _ _ _ Sq). lia. }
+    pose proof (R2 h) as Rh. rewrite Sh, D in Rh. simpl in Rh. apply oc_pos_link. lia. }
+  assert (Z : pt_count t2 = 0).
+  { destruct I2 as (Cn & _). rewrite Cn. apply occupied_none. exact NoOcc. }
+  rewrite Z. simpl. eexists. ssplit; [reflexivity|reflexivity|exact Z|exact NoOcc|reflexivity].
 Qed.
 
-(* before fix D42 it aborted: an unknown parameter in a lower slot than the parameter it refers to *)
+(* model variant [step_asis] (record of the code before fix D42; not tied to the current code): it
+   aborted on an unknown parameter in a lower slot than the parameter it refers to *)
 Definition d42_script : list op :=
   [OMakeScalar (32, 0)%Z 0; OMakeScalar (16, 0)%Z 0; ODeleteParam 3; OMakeUnknown 4 0].
 
@@ -1302,6 +1493,8 @@ Proof.
   - intros h. unfold slot, oc, vc. simpl.
     destruct h as [|[|[|h]]]; simpl; auto; try (split; lia). destruct h; auto.
   - reflexivity.
+  - exists (fun _ => 0). intros h p o S O. unfold slot in S.
+    destruct h as [|[|[|h]]]; simpl in S; try (inv S; discriminate). destruct h; discriminate.
 Qed.
 
 Lemma op_eq_free : forall o, {o = OFree} + {o <> OFree}.
@@ -1313,7 +1506,7 @@ Proof.
   - unfold step, step_gen. rewrite Fr. simpl. auto.
   - apply (Inv_Good s Fr) in H.
     destruct (op_eq_free o) as [->|NF].
-    + destruct (free_ok s Fr H) as (s' & E & Fr'). rewrite E. simpl. intros X. congruence.
+    + destruct (free_ok s Fr H) as (s' & E & Fr' & _). rewrite E. simpl. intros X. congruence.
     + destruct (step_good s o Fr H NF) as (G' & Fr' & _). apply Inv_Good; auto.
 Qed.
 
@@ -1323,7 +1516,7 @@ Proof.
   - unfold step, step_gen. rewrite Fr. simpl. discriminate.
   - apply (Inv_Good s Fr) in H.
     destruct (op_eq_free o) as [->|NF].
-    + destruct (free_ok s Fr H) as (s' & E & Fr'). rewrite E. simpl. discriminate.
+    + destruct (free_ok s Fr H) as (s' & E & Fr' & _). rewrite E. simpl. discriminate.
     + destruct (step_good s o Fr H NF) as (_ & _ & X). auto.
 Qed.
 
@@ -1393,7 +1586,7 @@ Lemma handles_unique_while_live_l : forall s o s' z,
   forall j p, param_map s j = Some p ->
     j <> Z.to_nat z /\ exists p', param_map s' j = Some p' /\ p_kind p' = p_kind p /\ p_deleted p' = p_deleted p.
 Proof.
-  intros s o s' z HI Fr M H Hz. apply (Inv_Good s Fr) in HI. destruct HI as [I P R N].
+  intros s o s' z HI Fr M H Hz. apply (Inv_Good s Fr) in HI. destruct HI as [I P R N AC].
   unfold step, step_gen in H. rewrite Fr in H. simpl negb in H.
   change (alloc_param_gen true) with alloc_param in H.
   assert (Fin : forall k fl after,
@@ -1409,7 +1602,8 @@ Proof.
     destruct (val_eqb g (64, 0)%Z); [inv H; lia|].
     destruct (val_eqb g (-64, 0)%Z); [inv H; lia|]. eapply Fin; eauto.
   - destruct fs as [|f0 fs']; [inv H|].
-    destruct ((f0 <? 0)%Z || negb (ascending (f0 :: fs')))%bool; [inv H|]. eapply Fin; eauto.
+    destruct ((f0 <? 0)%Z || negb (ascending (f0 :: fs')))%bool; [inv H|].
+    destruct (length gs <? length (f0 :: fs')); [inv H|]. eapply Fin; eauto.
   - destruct (get_param (st_pt s) h) as [[n p]|] eqn:Gp; [|inv H].
     destruct (get_param_some _ _ _ _ Gp) as (Sn & _). eapply Fin; eauto.
   - destruct (get_param (st_pt s) h) as [[n0 p]|] eqn:Gp; [|inv H].
@@ -1455,7 +1649,7 @@ Lemma deleted_while_held_still_works_l : forall s h n p id v,
     get_param (st_pt s') h = None /\
     (forall ms, exists s'', step s' (OAddStd id [h] ms) = (s'', ok_int 0) /\ st_pt s'' = st_pt s').
 Proof.
-  intros s h n p id v HI Fr Gp H3 Gn Hin. apply (Inv_Good s Fr) in HI. destruct HI as [I P R N].
+  intros s h n p id v HI Fr Gp H3 Gn Hin. apply (Inv_Good s Fr) in HI. destruct HI as [I P R N AC].
   destruct (get_param_some _ _ _ _ Gp) as (Sn & Dn & En & Hh).
   assert (Hn : 3 <= n) by lia.
   (* the vnacal_new_t's reference keeps the hold count above one *)
@@ -1493,7 +1687,7 @@ Lemma values_as_supplied_scalar_l : forall s g fl s' z,
   Inv s -> st_freed s = false -> step s (OMakeScalar g fl) = (s', ok_int z) ->
   forall f, get_value (st_pt s') z f = mkOut (RValue g) ENone 0.
 Proof.
-  intros s g fl s' z HI Fr H f. pose proof HI as HI0. apply (Inv_Good s Fr) in HI. destruct HI as [I P R N].
+  intros s g fl s' z HI Fr H f. pose proof HI as HI0. apply (Inv_Good s Fr) in HI. destruct HI as [I P R N AC].
   unfold step, step_gen in H. rewrite Fr in H. simpl negb in H.
   change (alloc_param_gen true) with alloc_param in H.
   destruct P as ((k0 & P0) & (k1 & P1) & (k2 & P2)).
@@ -1510,25 +1704,85 @@ Proof.
     rewrite Nat2Z.id, B; reflexivity.
 Qed.
 
-(* vector parameter asked at one of the supplied frequencies (the equality of the interpolation
-   at a knot is the property of _vnacal_rfi this cites; the range test is assumed) *)
-Lemma values_as_supplied_vector_partial_l : forall s fs gs fl s' z f i,
+(* vector parameter asked at one of the supplied frequencies.  A successful make_vector means that
+   the caller's gamma array has at least [length fs] entries (otherwise the outcome is RUndef: the C
+   code would read past the array), so the i-th supplied value exists: no default value is involved.
+   A supplied frequency always passes the range test of vnacal_get_parameter_value (ascending,
+   non-negative frequencies).  The interpolation between knots is not modelled. *)
+Lemma ascending_head_le_last : forall l a, ascending (a :: l) = true -> (a <= last (a :: l) 0)%Z.
+Proof.
+  induction l as [|b r IH]; intros a H.
+  - simpl. lia.
+  - cbn [ascending] in H. apply andb_prop in H. destruct H as (H1 & H2). apply Z.ltb_lt in H1.
+    specialize (IH b H2). change (last (a :: b :: r) 0%Z) with (last (b :: r) 0%Z). lia.
+Qed.
+
+Lemma ascending_bounds : forall l a f, ascending (a :: l) = true -> In f (a :: l) ->
+  (a <= f <= last (a :: l) 0)%Z.
+Proof.
+  induction l as [|b r IH]; intros a f H Hin.
+  - destruct Hin as [<-|[]]. simpl. lia.
+  - pose proof (ascending_head_le_last _ _ H) as HL.
+    cbn [ascending] in H. apply andb_prop in H. destruct H as (H1 & H2). apply Z.ltb_lt in H1.
+    destruct Hin as [<-|Hin]; [lia|].
+    specialize (IH b f H2 Hin). change (last (a :: b :: r) 0%Z) with (last (b :: r) 0%Z). lia.
+Qed.
+
+Lemma index_of_In : forall fs f i, index_of f fs = Some i -> In f fs /\ i < length fs.
+Proof.
+  induction fs as [|x r IH]; simpl; intros f i H; try discriminate.
+  destruct (Z.eqb_spec x f).
+  - inv H. split; auto; lia.
+  - destruct (index_of f r) as [k|] eqn:E; inv H. destruct (IH f k E). split; auto; lia.
+Qed.
+
+Lemma nth_error_firstn_lt : forall A (l : list A) n i, i < n -> nth_error (firstn n l) i = nth_error l i.
+Proof.
+  induction l as [|a l IH]; intros n i H.
+  - rewrite firstn_nil. auto.
+  - destruct n; try lia. destruct i; simpl; auto. apply IH. lia.
+Qed.
+
+Lemma nth_error_nth_some : forall A (l : list A) i d x, nth_error l i = Some x -> nth i l d = x.
+Proof. induction l; destruct i; simpl; intros; try discriminate; eauto. congruence. Qed.
+
+Lemma values_as_supplied_vector_l : forall s fs gs fl s' z f i,
   Inv s -> st_freed s = false -> step s (OMakeVector fs gs fl) = (s', ok_int z) ->
   index_of f fs = Some i ->
-  (99 * hd 0 fs <= 100 * f)%Z -> (100 * f <= 101 * last fs 0)%Z ->
-  get_value (st_pt s') z f = mkOut (RValue (nth i gs (0, 0)%Z)) ENone 0.
+  exists g, nth_error gs i = Some g /\ get_value (st_pt s') z f = mkOut (RValue g) ENone 0.
 Proof.
-  intros s fs gs fl s' z f i HI Fr H Hi Lo Hi2. apply (Inv_Good s Fr) in HI. destruct HI as [I P R N].
+  intros s fs gs fl s' z f i HI Fr H Hi. apply (Inv_Good s Fr) in HI. destruct HI as [I P R N AC].
   unfold step, step_gen in H. rewrite Fr in H. simpl negb in H.
   change (alloc_param_gen true) with alloc_param in H.
   destruct fs as [|f0 fs']; [inv H|].
-  destruct ((f0 <? 0)%Z || negb (ascending (f0 :: fs')))%bool; [inv H|].
+  destruct ((f0 <? 0)%Z || negb (ascending (f0 :: fs')))%bool eqn:Chk; [inv H|].
+  apply orb_false_elim in Chk. destruct Chk as (C0 & C1). apply Z.ltb_ge in C0.
+  apply negb_false_iff in C1.
+  destruct (Nat.ltb_spec (length gs) (length (f0 :: fs'))) as [|Len]; [inv H|].
+  destruct (index_of_In _ _ _ Hi) as (Hin & Hlt).
+  destruct (nth_error gs i) as [g|] eqn:Eg; [|apply nth_error_None in Eg; lia].
+  exists g. split; auto.
   destruct (finish_make_fresh _ _ _ _ _ _ I H (or_introl eq_refl)) as (h & -> & _ & B & _).
   unfold get_value, get_param. destruct (Z.ltb_spec (Z.of_nat h) 0); try lia.
   rewrite Nat2Z.id, B. simpl p_deleted. cbv iota. simpl p_kind. cbv iota. unfold table_value.
-  destruct (Z.ltb_spec (100 * f) (99 * hd 0%Z (f0 :: fs'))); try lia.
+  pose proof (ascending_bounds _ _ _ C1 Hin) as (B1 & B2).
+  change (hd 0%Z (f0 :: fs')) with f0.
+  destruct (Z.ltb_spec (100 * f) (99 * f0)); try lia.
   destruct (Z.ltb_spec (101 * last (f0 :: fs') 0%Z) (100 * f)); try lia.
-  simpl orb. cbv iota. rewrite Hi. reflexivity.
+  simpl orb. cbv iota. rewrite Hi.
+  assert (Eg' : nth_error (firstn (length (f0 :: fs')) gs) i = Some g) by (rewrite nth_error_firstn_lt; auto).
+  f_equal. f_equal. exact (nth_error_nth_some _ (firstn (length (f0 :: fs')) gs) i (0, 0)%Z g Eg').
+Qed.
+
+(* the model makes no prediction when the caller's gamma array is shorter than the frequency
+   count: the outcome is RUndef and nothing changes (and so no theorem about values applies) *)
+Lemma make_vector_short_gamma_undefined : forall s f0 fs gs fl,
+  st_freed s = false -> (0 <= f0)%Z -> ascending (f0 :: fs) = true -> length gs < length (f0 :: fs) ->
+  step s (OMakeVector (f0 :: fs) gs fl) = (s, mkOut RUndef ENone 0).
+Proof.
+  intros s f0 fs gs fl Fr H0 Ha Hl. unfold step, step_gen. rewrite Fr.
+  destruct (Z.ltb_spec f0 0); try lia. rewrite Ha. simpl orb. cbv iota.
+  destruct (Nat.ltb_spec (length gs) (length (f0 :: fs))); try lia. reflexivity.
 Qed.
 
 (* ================================================================== refinement of the finite-map spec *)
@@ -1601,7 +1855,7 @@ Proof. intros t h p S D O. destruct p; simpl in *; subst; eauto. Qed.
 Lemma shk_keeps : forall t t' h, shk t t' -> keeps t t' h.
 Proof.
   intros t t' h H p S D O. specialize (H h). rewrite S in H. destruct (slot t' h) as [q|]; [|tauto].
-  destruct H as (Dq & Kq). specialize (Kq O). destruct q as [qk qd qh]; simpl in *. subst qk.
+  destruct H as (Dq & Kq & _). specialize (Kq O). destruct q as [qk qd qh]; simpl in *. subst qk.
   rewrite D in Dq. subst qd. eauto.
 Qed.
 
@@ -1629,7 +1883,7 @@ Lemma step_keeps_value : forall s o h,
   st_freed s = false -> Good s -> o <> OFree -> o <> ODeleteParam (Z.of_nat h) ->
   keeps (st_pt s) (st_pt (fst (step s o))) h.
 Proof.
-  intros s o h Fr G NF ND. pose proof G as [I P R N].
+  intros s o h Fr G NF ND. pose proof G as [I P R N AC].
   unfold step, step_gen. rewrite Fr. simpl negb.
   change (alloc_param_gen true) with alloc_param.
   destruct o; try congruence.
@@ -1638,6 +1892,7 @@ Proof.
     destruct (val_eqb g (-64, 0)%Z); [apply keeps_refl|]. apply finish_make_keeps; auto.
   - destruct fs as [|f0 fs']; [apply keeps_refl|].
     destruct ((f0 <? 0)%Z || negb (ascending (f0 :: fs')))%bool; [apply keeps_refl|].
+    destruct (length gs <? length (f0 :: fs')); [apply keeps_refl|].
     apply finish_make_keeps; auto.
   - destruct (get_param (st_pt s) h0) as [[n p]|]; [|apply keeps_refl]. apply finish_make_keeps; eauto.
   - destruct (get_param (st_pt s) h0) as [[n0 p]|]; [|apply keeps_refl].
@@ -1723,18 +1978,3 @@ Proof.
     intros f. rewrite B. unfold get_value, get_param.
     destruct (Z.ltb_spec (Z.of_nat h) 0); try lia. rewrite Nat2Z.id, S1, S, D. simpl. reflexivity.
 Qed.
-
-(* fix D17: a standard refused for one of its parameters registers nothing *)
-Lemma rejected_standard_unchanged_l : forall s id v hs ms,
-  st_freed s = false -> get_new s id = Some v ->
-  forallb (vn_check_param (S (length (pt_slots (st_pt s)))) (st_pt s) v) hs = false ->
-  step s (OAddStd id hs ms) = (s, fail_usage).
-Proof.
-  intros s id v hs ms Fr G H. unfold step, step_gen. rewrite Fr, G, H. reflexivity.
-Qed.
-
-Example rejected_standard_example :
-  let s := run_state held_script in
-  exists v, get_new s 0 = Some v /\
-  forallb (vn_check_param (S (length (pt_slots (st_pt s)))) (st_pt s) v) [3%Z; 9%Z] = false.
-Proof. eexists. split; [vm_compute; reflexivity|]. vm_compute. reflexivity. Qed.
